@@ -58,12 +58,12 @@ type partGen struct {
 func lyPick(r *hx.Rand, xs ...string) string { return xs[r.Intn(len(xs))] }
 
 func lyWord(r *hx.Rand) string {
-	return lyPick(r, "a", "zlib", "libfoo", "openssl", "bash", "x", "foo-bar", "py_pkg", "left-pad", "rails", "ünï", "A.B", "pkg+1", "n0", "core")
+	return lyPick(r, "a", "zlib", "libfoo", "openssl", "bash", "x", "foo-bar", "py_pkg", "left-pad", "rails", "ünï", "A.B", "pkg+1", "n0", "core", "-", ".", "z")
 }
 
 func lyVersion(r *hx.Rand) string {
 	return lyPick(r, "1", "1.0", "1.2.3", "0.0.1", "2:1.2.3-4", "1.2.3-r0", "1.0.0rc1", "1!2.0.post1.dev3", "v1.2.3", "1.2.3+build.5",
-		"1.2.3-alpine4", "10.20.30~beta", "2021.10.1", "1.0-1ubuntu2.1", "0", "1.2.3.4.5.6", "1.0.0-SNAPSHOT", "4.el9")
+		"1.2.3-alpine4", "10.20.30~beta", "2021.10.1", "1.0-1ubuntu2.1", "0", "1.2.3.4.5.6", "1.0.0-SNAPSHOT", "4.el9", "", "v", ":", "-", "1-", ".")
 }
 
 func lyRandBytes(r *hx.Rand, n int) []byte {
@@ -1321,12 +1321,13 @@ func partWhiteout(r *hx.Rand, o lyOpts) lyPart {
 // inline-strings format: what debug/buildinfo reads from a Go binary.
 func genGoElf(r *hx.Rand) []byte {
 	le := binary.LittleEndian
-	vers := lyPick(r, "go1.21.3", "go1.20.12 X:strictfipsruntime", "go1.24.1", "devel +abc", "go1.99999999999.1", "go1.2.3-4")
+	vers := lyPick(r, "go1.21.3", "go1.20.12 X:strictfipsruntime", "go1.24.1", "devel +abc", "go1.99999999999.1", "go1.2.3-4", "go1.21.3", "go1.22.0",
+		"g", "go", "x", " ", "go ", "1", "gö", "go1.", "go1.21.3 ", "go-1")
 	var mod strings.Builder
 	fmt.Fprintf(&mod, "path\tgithub.com/example/%s/cmd/x\n", lyWord(r))
-	fmt.Fprintf(&mod, "mod\tgithub.com/example/%s\t%s\t\n", lyWord(r), lyPick(r, "(devel)", "v1.2.3", "v0.0.0-20250212170732-e3af313feaab+dirty", ""))
+	fmt.Fprintf(&mod, "mod\tgithub.com/example/%s\t%s\t\n", lyWord(r), lyPick(r, "(devel)", "v1.2.3", "v0.0.0-20250212170732-e3af313feaab+dirty", "", "v", "(", "v1.2.3+"))
 	for i, n := 0, r.Intn(5); i < n; i++ {
-		fmt.Fprintf(&mod, "dep\tgithub.com/%s/%s\t%s\th1:abcdefghijklmnopqrstuvwxyzABCDEFGHIJKLMNOPQR=\n", lyWord(r), lyWord(r), lyPick(r, "v1.2.3", "v0.0.0-20210101000000-abcdef012345", "v2.0.0+incompatible", "v99999999999.1.1", "x"))
+		fmt.Fprintf(&mod, "dep\tgithub.com/%s/%s\t%s\th1:abcdefghijklmnopqrstuvwxyzABCDEFGHIJKLMNOPQR=\n", lyWord(r), lyWord(r), lyPick(r, "v1.2.3", "v0.0.0-20210101000000-abcdef012345", "v2.0.0+incompatible", "v99999999999.1.1", "x", "v1.2.3", "", "v", "1", "v1", "-", "v1.2.3-"))
 		if r.Chance(1, 4) {
 			fmt.Fprintf(&mod, "=>\tgithub.com/r/%s\tv1.2.4\th1:abc=\n", lyWord(r))
 		}
